@@ -101,7 +101,9 @@ NEGATIVE = [('prefs', 'PREFRULE', 'always', 3, ['PrefLaterWins']),
 
 
 # positive control: with ties taking the payload (ACCRULE "ge") the naive Converge holds in the accounts instance (one generator)
-POSITIVE = [('accounts', 'ACCRULE', 'ge', 4, ['ConvergeNaive', 'NoDupNoDrop', 'AddsExactlyMissing', 'CarriedFields', 'Idempotent'])]
+# and with a canonical preference dump (HASHPREFS "sorted" = json.dumps(sort_keys=True)) the naive hash clauses hold
+POSITIVE = [('accounts', 'ACCRULE', 'ge', 4, ['ConvergeNaive', 'NoDupNoDrop', 'AddsExactlyMissing', 'CarriedFields', 'Idempotent'], []),
+            ('prefs', 'HASHPREFS', 'sorted', 4, ['HashCompleteNaive', 'ConvergeHashNaive', 'HashSound'], ['HashStableNaive', 'EditChangesHash'])]
 
 
 def consts(inst, maxops=None, **over):
@@ -158,8 +160,8 @@ def leg_a(ctx, out):
         c = consts(inst, mo, **{sw: val})
         jobs.append((f'neg:{sw}={val}', 'MCWalletMerge', mccfg(c, NAMED + ['UniqueIds', 'HashSound'], ['EditChangesHash']), 1, False))
 
-    for inst, sw, val, mo, invs in POSITIVE:
-        jobs.append((f'pos:{sw}={val}', 'MCWalletMerge', mccfg(consts(inst, mo if ctx.thorough else 3, **{sw: val}), invs), 2, False))
+    for inst, sw, val, mo, invs, props in POSITIVE:
+        jobs.append((f'pos:{sw}={val}', 'MCWalletMerge', mccfg(consts(inst, mo if ctx.thorough else 3, **{sw: val}), invs, props), 2, False))
 
     def one(job):
         name, module, c, workers, cov = job
@@ -173,16 +175,20 @@ def leg_a(ctx, out):
         r = results['main:' + inst]
         mo = INSTANCES[inst][2 if ctx.thorough else 1]
         ctx.add_tlc(r, f'WalletMerge exhaustive [{inst}] MaxOps={mo}')
-        if r.violated or not r.ok:
-            name = r.violated[0] if r.violated else 'incomplete'
+        if not r.violated and not r.ok:
+            raise MachineryError(f'TLC did not finish instance {inst} (rc={r.rc}, deadlock={r.deadlock}):\n{r.out[-1500:]}')
+        if r.violated:
+            name = r.violated[0]
             ctx.violation('model:' + name, f'clause {name} violated in the model instance {inst}', r.error_trace[:8000])
             return False
         seen |= marks_of(r)
         taken |= {a for a, (d, g) in r.coverage.items() if g}
     r = results['witnesses']
     ctx.add_tlc(r, 'WalletMergeWit: directed histories (witnesses of every antecedent, refutations of the naive clauses)')
-    if r.violated or not r.ok:
-        ctx.violation('model:' + (r.violated[0] if r.violated else 'incomplete'), 'clause violated on a directed history of the model', r.error_trace[:8000])
+    if not r.violated and not r.ok:
+        raise MachineryError(f'TLC did not finish the directed histories (rc={r.rc}):\n{r.out[-1500:]}')
+    if r.violated:
+        ctx.violation('model:' + r.violated[0], 'clause violated on a directed history of the model', r.error_trace[:8000])
         return False
     seen |= marks_of(r)
     missing = [w for w in WITNESSES if w not in seen]
@@ -215,7 +221,7 @@ def leg_a(ctx, out):
         if not hit:
             raise MachineryError(f'negative control {sw}={val} in {inst}: none of {exp} violated (violated: {r.violated})')
         caught[f'{sw}={val}'] = hit
-    for inst, sw, val, mo, invs in POSITIVE:
+    for inst, sw, val, mo, invs, props in POSITIVE:
         r = results[f'pos:{sw}={val}']
         ctx.add_tlc(r, f'WalletMerge [{inst}] positive control {sw}={val}: {invs[0]} holds')
         if r.violated or not r.ok:
@@ -614,12 +620,12 @@ def concrete_checks(ctx, tr):
     """what the projection cannot show: the unpacked payload IS Wallet.to_dict(), a refused pull leaves the whole dict alone"""
     for i, e in enumerate(tr['ev']):
         if e.get('identity') is False:
-            ctx.violation('real:PackUnpackIdentity', f'unpack(p, pack(p, wallet)) differs from wallet.to_dict() (or sync_apply returned another '
-                          f'hash than sync_hash) at call {i} {e["a"]}', replay_of(tr, i))
+            report(ctx, 'real:PackUnpackIdentity', f'unpack(p, pack(p, wallet)) differs from wallet.to_dict() (or sync_apply returned another '
+                   f'hash than sync_hash) at call {i} {e["a"]}', replay_of(tr, i))
         if e.get('untouched') is False:
-            ctx.violation('real:WrongPasswordRefused', f'a refused sync_apply changed the wallet at call {i} {e["a"]}', replay_of(tr, i))
+            report(ctx, 'real:WrongPasswordRefused', f'a refused sync_apply changed the wallet at call {i} {e["a"]}', replay_of(tr, i))
         if e.get('returned_hash_ok') is False:
-            ctx.violation('real:sync_apply-returns-other-hash', f'sync_apply returned a hash that is not sync_hash at call {i}', replay_of(tr, i))
+            report(ctx, 'real:sync_apply-returns-other-hash', f'sync_apply returned a hash that is not sync_hash at call {i}', replay_of(tr, i))
 
 
 def replay_of(tr, upto=None):
@@ -759,7 +765,7 @@ def compare_with_model(ctx, tr, states, stats):
 
 
 SIMS = [  # (instance, MaxOps, behaviours quick, behaviours thorough, depth)
-    ('accounts', 15, 7, 60, 23), ('prefs', 15, 5, 40, 23), ('enc', 15, 6, 50, 23), ('gens', 15, 7, 60, 23), ('three', 15, 5, 40, 26)]
+    ('accounts', 15, 7, 40, 23), ('prefs', 15, 5, 30, 23), ('enc', 15, 6, 35, 23), ('gens', 15, 7, 40, 23), ('three', 15, 5, 30, 26)]
 
 
 def leg_b(ctx, world, cex, traces, stats):
@@ -924,7 +930,7 @@ def leg_c(ctx, world, traces):
     for name, acts in DIRECTED.items():
         traces.append(record(world, acts, f'directed: {name}'))
         ctx.count(('directed', name), n=len(acts))
-    n = 150 if ctx.thorough else 12
+    n = 80 if ctx.thorough else 12
     ncalls = 0
     for k in range(n):
         tr = random_history(world, ctx.rng, ctx.rng.choice([12, 20, 30, 45] if ctx.thorough else [12, 20, 30]), 3 if k % 3 else 2)
